@@ -194,6 +194,67 @@ fn c05_custom_array_index_key() {
     std::mem::forget(strat);
 }
 
+/// longer names: key = any 2 bytes over {a,b}, path = any 5 bytes over {a,b,.,[} — the key must end at a
+/// token boundary of the path (`ab` continues `ab.xy` and `ab[x]`, but not `abb.x`)
+#[kani::proof]
+#[kani::unwind(7)]
+fn c05_custom_two_byte_key_boundary() {
+    let p = sym_str::<5>(b'.', b'b');
+    let pb = p.as_bytes();
+    let mut i = 0;
+    while i < 5 {
+        kani::assume(pb[i] == b'a' || pb[i] == b'b' || pb[i] == b'.' || pb[i] == b'[');
+        i += 1;
+    }
+    let k = sym_str::<2>(b'a', b'b');
+    let kb = k.as_bytes();
+    let (p0, p1, p2, p3, p4) = (pb[0], pb[1], pb[2], pb[3], pb[4]);
+    let starts = p0 == kb[0] && p1 == kb[1];
+    let mut paths: Vec<&str> = Vec::with_capacity(1);
+    paths.push(p.as_str());
+    let strat = Strat::Custom(paths);
+    assert!(!strat.sd_for_key(k.as_str()), "C05.g1 a longer path never designates the key itself");
+    let next = strat.next_level(k.as_str());
+    match &next {
+        Strat::Custom(v) => {
+            if starts && p2 == b'.' {
+                assert!(v.len() == 1 && v[0].len() == 2 && v[0].as_bytes()[0] == p3 && v[0].as_bytes()[1] == p4, "C05.g2 after `key.` the remainder applies below");
+            } else if starts && p2 == b'[' {
+                assert!(v.len() == 1 && v[0].len() == 3 && v[0].as_bytes()[0] == b'[' && v[0].as_bytes()[1] == p3 && v[0].as_bytes()[2] == p4, "C05.g3 an array index after the key is kept with its `[`");
+            } else {
+                assert!(v.is_empty(), "C05.g4 a path whose first token is not exactly the key has no effect below it");
+            }
+            kani::cover!(v.len() == 1, "continues");
+            kani::cover!(starts && v.is_empty(), "key is a proper prefix of the first token");
+        }
+        _ => assert!(false, "C05.g5 Custom stays Custom"),
+    }
+    kani::cover!(true, "end");
+    std::mem::forget(next);
+    std::mem::forget(strat);
+}
+
+/// equal lengths: Custom([p]) designates k iff p == k (2-byte names)
+#[kani::proof]
+#[kani::unwind(5)]
+fn c05_custom_equal_length_names() {
+    let p = sym_str::<2>(b'a', b'c');
+    let k = sym_str::<2>(b'a', b'c');
+    let eq = p.as_bytes()[0] == k.as_bytes()[0] && p.as_bytes()[1] == k.as_bytes()[1];
+    let mut paths: Vec<&str> = Vec::with_capacity(1);
+    paths.push(p.as_str());
+    let strat = Strat::Custom(paths);
+    assert!(strat.sd_for_key(k.as_str()) == eq, "C05.h1 designated iff the path equals the name");
+    match strat.next_level(k.as_str()) {
+        Strat::Custom(v) => { assert!(v.is_empty(), "C05.h2 a path that ends at the key has nothing to say below it"); std::mem::forget(v); }
+        _ => assert!(false, "C05.h3 Custom stays Custom"),
+    }
+    kani::cover!(eq, "designated");
+    kani::cover!(!eq, "not designated");
+    kani::cover!(true, "end");
+    std::mem::forget(strat);
+}
+
 // ---------------------------------------------------------------------------------------------
 // marking at one level: create_sd_claims_object on {"a":1,"b":2} with SDJWTDisclosure::new replaced
 // by the disclosure hook. The path is concrete per harness (a symbolic path makes the two marking
